@@ -50,6 +50,7 @@ structure Stream where
   max16 : Nat
   outbox : List StreamItem
   ended : Bool
+  reqOpen : Bool := true       -- the client has not closed the request half
 deriving Repr, DecidableEq
 
 structure Sys where
@@ -133,17 +134,19 @@ def Sys.nextTimer (sys : Sys) : Option (Nat × Nat) :=
       | none => some (t, e.sid)
       | some (bt, _) => if t < bt then some (t, e.sid) else best) none
 
-/-- Advance the virtual clock to `target`, firing expiry timers in time order, each at its own
-    1 ms tick, and letting stream consumers react at that instant. -/
-def Sys.advanceTo : Nat → Nat → Sys → Sys
+/-- Process expiry timers in time order up to `target`. A timer for deadline `d` has tick
+    `ceilMs d`; when the paused clock auto-advances to it the clock's sub-millisecond fraction
+    `frac` is preserved, so it fires at `ceilMs d + frac`. Stream consumers react at that instant.
+    Finally the clock is set to `target`. -/
+def Sys.advanceTo (frac : Nat) : Nat → Nat → Sys → Sys
   | 0, target, sys => { sys with clock := max sys.clock target }
   | fuel + 1, target, sys =>
     match sys.nextTimer with
     | some (t, sid) =>
-      if t ≤ target then
-        let sys1 := { sys with clock := max sys.clock t }
+      if t + frac ≤ target then
+        let sys1 := { sys with clock := max sys.clock (t + frac) }
         let sys2 := (sys1.subExpire sid).drainSub sid
-        Sys.advanceTo fuel target sys2
+        Sys.advanceTo frac fuel target sys2
       else { sys with clock := max sys.clock target }
     | none => { sys with clock := max sys.clock target }
 
@@ -381,18 +384,19 @@ def Sys.rpc (sys : Sys) : Req → Sys × Resp
         if !o.delivered.isEmpty || ri then (sys1, .msgs o.delivered)
         else
           -- blocked: wait for this subscription's next expiry or for the 5 minute limit
-          let limit := ceilMs (sys.clock + pullLimitUs)
+          let frac := sys.clock % 1000
+          let limit := ceilMs (sys.clock + pullLimitUs) + frac
           let wake : Option Nat := match sys1.findSubById e.sid with
             | none => none
-            | some e1 => (e1.st.out.nextExpiration).map ceilMs
+            | some e1 => (e1.st.out.nextExpiration).map (fun d => ceilMs d + frac)
           match wake with
           | some t =>
             if t < limit then
-              let sys2 := Sys.advanceTo 1000000 t sys1
+              let sys2 := Sys.advanceTo frac 1000000 t sys1
               let (sys3, o3) := sys2.subTurn e.sid (.pull max16 sys2.clock)
               (sys3, .msgs o3.delivered)
-            else (Sys.advanceTo 1000000 limit sys1, .msgs [])
-          | none => (Sys.advanceTo 1000000 limit sys1, .msgs [])
+            else (Sys.advanceTo frac 1000000 limit sys1, .msgs [])
+          | none => (Sys.advanceTo frac 1000000 limit sys1, .msgs [])
   | .ack raw ids =>
     match parseAckIds ids with
     | none => (sys, .err .invalidArgument)
@@ -478,11 +482,18 @@ def Sys.streamRead (sys : Sys) (k : Nat) : Sys × Option (List StreamItem × Boo
     ({ sys with streams := sys.streams.map (fun x => if x.k == k then { x with outbox := [] } else x) },
      some (s.outbox, s.ended))
 
+def Sys.streamCloseReq (sys : Sys) (k : Nat) : Sys :=
+  { sys with streams := sys.streams.map (fun s => if s.k == k then { s with reqOpen := false } else s) }
+
 def Sys.streamDrop (sys : Sys) (k : Nat) : Sys :=
   { sys with streams := sys.streams.filter (·.k != k) }
 
-/-- `adv d`: move the clock forward by `d` µs. -/
-def Sys.advance (sys : Sys) (d : Nat) : Sys := Sys.advanceTo 1000000 (sys.clock + d) sys
+/-- `adv d`: move the clock forward by `d` µs. The harness first steps to the next whole
+    millisecond (if `d` reaches it), so every timer is crossed with a zero fraction. -/
+def Sys.advance (sys : Sys) (d : Nat) : Sys :=
+  let target := sys.clock + d
+  if target < ceilMs sys.clock then { sys with clock := target }
+  else Sys.advanceTo 0 1000000 target { sys with clock := ceilMs sys.clock }
 
 /-- `get_stats` of a live subscription: (outstanding, backlog, topic display). -/
 def Sys.stats (sys : Sys) (raw : Bytes) : Option (Nat × Nat × Bytes) :=
